@@ -443,10 +443,15 @@ func classify(b []byte) []string {
 			ev = append(ev, "c")
 		case name == "starttls" && (strings.Contains(tag, "'"+nsTLS+"'") || strings.Contains(tag, `"`+nsTLS+`"`)) && strings.HasSuffix(tag, "/"):
 			ev = append(ev, "s")
-		case len(name) > 1 && name[0] == 'n' && strings.HasSuffix(tag, "/"):
+		case len(name) > 1 && name[0] == 'n':
 			if _, err := strconv.Atoi(name[1:]); err == nil {
 				ev = append(ev, "o"+name[1:])
 				continue
+			}
+			ev = append(ev, "?"+common.HexS("<"+tag+">"))
+		case len(name) > 2 && name[0] == '/' && name[1] == 'n':
+			if _, err := strconv.Atoi(name[2:]); err == nil {
+				continue // end tag of a marker written through the encoder
 			}
 			ev = append(ev, "?"+common.HexS("<"+tag+">"))
 		default:
@@ -592,7 +597,19 @@ func (c *ctx) exec(sc scenario, base *xmpp.StreamFeature) (res result) {
 				calls++
 				mu.Unlock()
 				rec(pick{id: o.id, res: r})
-				fmt.Fprintf(s.Conn(), "<n%d xmlns='urn:x:f%d'/>", o.id, o.id)
+				if o.id%2 == 1 {
+					// written to the connection directly …
+					fmt.Fprintf(s.Conn(), "<n%d xmlns='urn:x:f%d'/>", o.id, o.id)
+				} else {
+					// … or through the session's XML encoder, as the built-in SASL and
+					// bind features do
+					w := s.TokenWriter()
+					st := xml.StartElement{Name: xml.Name{Space: fmt.Sprintf("urn:x:f%d", o.id), Local: fmt.Sprintf("n%d", o.id)}}
+					_ = w.EncodeToken(st)
+					_ = w.EncodeToken(st.End())
+					_ = w.Flush()
+					_ = w.Close()
+				}
 				if r.err {
 					return 0, nil, errNeg
 				}
@@ -641,12 +658,21 @@ func (c *ctx) exec(sc scenario, base *xmpp.StreamFeature) (res result) {
 		hsDone := common.B(s.ConnectionState().HandshakeComplete)
 		// Is a TLS layer in place?  Write a probe through the session's connection and
 		// look for it on the raw wire.
+		// One probe goes to the connection, one through the session's XML encoder.
 		layer := "1"
 		common.WithTimeout(5*time.Second, func() {
 			common.Recover(func() { _, _ = s.Conn().Write([]byte("<probe/>")) })
+			common.Recover(func() {
+				tw := s.TokenWriter()
+				pe := xml.StartElement{Name: xml.Name{Local: "probe2"}}
+				_ = tw.EncodeToken(pe)
+				_ = tw.EncodeToken(pe.End())
+				_ = tw.Flush()
+				_ = tw.Close()
+			})
 		})
 		after, _ := w.snapshot()
-		if strings.Contains(string(after[len(out):]), "<probe/>") {
+		if strings.Contains(string(after[len(out):]), "<probe") {
 			layer = "0"
 		}
 		res.outcome = fmt.Sprintf("done.%d.%s.%s", res.state, layer, hsDone)
@@ -665,7 +691,7 @@ func (c *ctx) exec(sc scenario, base *xmpp.StreamFeature) (res result) {
 	}
 	res.clearEv = classify(res.rawClear)
 	protBytes := res.prot
-	if i := strings.Index(string(protBytes), "<probe/>"); i >= 0 {
+	if i := strings.Index(string(protBytes), "<probe"); i >= 0 {
 		protBytes = protBytes[:i]
 	}
 	res.prot = protBytes
